@@ -164,8 +164,32 @@ def _parsetag_hook(E, loc):
     return VT([tag, args, NONE, co])                            # continuation tag
 
 
+def _parsetag_exc(E, loc, exc):
+    """a ParseError of _parseTag names the tag it was given: args == (message, group(0) of the match)
+    (proved for both parseTag implementations: clause C06.parseTag.error_names_the_tag_it_was_given)"""
+    mo = loc.get('match_ob')
+    if isinstance(mo, VRef) and 'groups' in E.heap[mo.addr].fields and len(exc.args) == 2:
+        exc.args[1] = E.heap[mo.addr].fields['groups'][0]
+
+
+def _located_errors(E, prefix):
+    """C06: every located error names a tag together with the position where that tag starts -- at each call of
+    parse_error(mess, tag, text, start) made on this path, text[start : start + len(tag)] == tag"""
+    for t in E.trace:
+        if t[0] == 'contract-call' and t[1] == PE:
+            a = t[2]
+            try:
+                tag, text, start = E.as_z3_str(a['tag']), E.as_z3_str(a['text']), E.as_z3_int(a['start'])
+                cond = z3.And(start >= 0, z3.SubString(text, start, z3.Length(tag)) == tag)
+            except Exception:  # noqa  (an argument that is not a string / an integer)
+                cond = False
+            E.oblige('%s::C06.error_location_is_where_the_named_tag_starts' % prefix, cond, kind='post',
+                     detail='parse_error(message, tag, text, position): the position handed over (from which the reported line is '
+                            'counted) is where the tag named in the message starts: text[position : position + len(tag)] == tag')
+
+
 contract(PT, params=dict(self=Opaque(), match_ob=Opaque(), command=Opaque(), sargs=Opaque(), tt=Default()),
-         raises=['ParseError'], returns=Opaque(), call_hook=_parsetag_hook,
+         raises=['ParseError'], returns=Opaque(), call_hook=_parsetag_hook, exc_hook=_parsetag_exc,
          exc_ensures=dict(two_args="True"))
 contract(PE, params=dict(self=Opaque(), mess=Opaque(), tag=Opaque(), text=Opaque(), start=Opaque()), raises=['ParseError'], returns=NoneV(), noreturn=True)
 contract(SK, params=dict(self=Opaque(), text=Str(), start=Int(), eol=Default()),
@@ -181,9 +205,10 @@ def _pb_effect(E, loc, outcome):
 
 
 contract(PB, params=dict(self=Opaque(), text=Str(), start=Int(), result=ListS(), tagre=Opaque(), stag=Str(), sloc=Int(), sargs=Opaque(), scommand=Opaque()),
-         requires=['start == sloc + strlen(stag)', 'sloc >= 0', 'start <= strlen(text)'],
+         requires=['start == sloc + strlen(stag)', 'sloc >= 0', 'start <= strlen(text)', 'text[sloc:sloc + strlen(stag)] == stag'],
          ensures=dict(range="result >= start and result <= strlen(text)"), raises=['ParseError'], returns=Int(), effects=_pb_effect)
 contract(PC, params=dict(self=Opaque(), text=Str(), start=Int(), tagre=Opaque(), stag=Str(), sloc=Int(), scommand=Opaque(), sa=Opaque()),
+         requires=['sloc >= 0', 'text[sloc:sloc + strlen(stag)] == stag'],
          ensures=dict(range="result >= start and result <= strlen(text)"), raises=['ParseError'], returns=Int())
 
 
@@ -226,6 +251,7 @@ def _parse_iter(E, env, trace, fq, ordn):
 def _parse_exit(E, outcome, value, env, prefix):
     ob1 = _ob(E, prefix, 'C01')
     ob6 = _ob(E, prefix, 'C06')
+    _located_errors(E, prefix)
     if outcome != 'normal':
         return
     marks = [i for i, t in enumerate(E.trace) if t[0] == 'loop_exit']
@@ -373,6 +399,7 @@ def _pb_iter(E, env, trace, fq, ordn):
 
 def _pb_exit(E, outcome, value, env, prefix):
     ob = _ob(E, prefix, 'C01')
+    _located_errors(E, prefix)
     if outcome != 'normal' or E.trace_truncated:
         return
     marks = [i for i, t in enumerate(E.trace) if t[0] == 'loop_head']
@@ -400,7 +427,7 @@ def _pb_exit(E, outcome, value, env, prefix):
 
 contract(PB, variant='C01',
          params=dict(self=Obj(ST, lazy=True), text=Str(), start=Int(), result=ListS(), tagre=NoneV(), stag=Str(), sloc=Int(), sargs=Str(), scommand=NoneV()),
-         requires=['0 <= sloc', 'start == sloc + strlen(stag)', 'start <= strlen(text)', 'strlen(stag) >= 1'],
+         requires=['0 <= sloc', 'start == sloc + strlen(stag)', 'start <= strlen(text)', 'strlen(stag) >= 1', 'text[sloc:sloc + strlen(stag)] == stag'],
          pre_hook=_pb_state, exit_hook=_pb_exit, raises=['ParseError'],
          ensures=dict(range="result >= start and result <= strlen(text)"),
          uses=[PT, PA, PC, PE, SK, ST + '.SubTemplate'],
@@ -417,6 +444,7 @@ contract(PB, variant='C01',
 
 def _pc_exit(E, outcome, value, env, prefix):
     ob = _ob(E, prefix, 'C01')
+    _located_errors(E, prefix)
     if outcome != 'normal':
         return
     apps = [t for t in E.trace if t[0] in ('list_append',)]
@@ -425,7 +453,7 @@ def _pc_exit(E, outcome, value, env, prefix):
 
 contract(PC, variant='C01',
          params=dict(self=Obj(ST, lazy=True), text=Str(), start=Int(), tagre=NoneV(), stag=Str(), sloc=Int(), scommand=NoneV(), sa=Opaque()),
-         requires=['0 <= sloc', 'sloc <= start', 'start <= strlen(text)'],
+         requires=['0 <= sloc', 'sloc <= start', 'start <= strlen(text)', 'text[sloc:sloc + strlen(stag)] == stag'],
          pre_hook=_pb_state, exit_hook=_pc_exit, raises=['ParseError'],
          ensures=dict(range="result >= start and result <= strlen(text)"),
          uses=[PT, PC, PE],
@@ -516,6 +544,10 @@ for _which, _qual in (('String', ST), ('HTML', HT)):
                         bool(value.cls == 'ParseError' and not value.sym and len(value.args) == 2 and isinstance(value.args[0], VC)
                              and value.args[0].v in ('unexpected end tag', 'Unexpected tag')),
                         'parseTag raises only ParseError(message, tag text): unexpected end tag / Unexpected tag (%s)' % value.cls)
+                    g0 = E.heap[env.locals['match_ob'].addr].fields['g'][0]
+                    ob6('parseTag.error_names_the_tag_it_was_given',
+                        bool(len(value.args) == 2) and (bool(value.args[1] is g0) or (E.is_strlike(value.args[1]) and E.as_z3_str(value.args[1]) == E.as_z3_str(g0))),
+                        'the ParseError of parseTag carries the text of the tag it was given: args[1] == group(0)')
                     if _k == 'end':
                         cn = z3.String('cname')
                         ob6('parseTag.end_tag_rejected_iff_no_or_other_open_block', bool(_c == 'none') or z3.String('name') != cn,
